@@ -130,7 +130,7 @@ func raceRound(t *testing.T, seed int64, round int) {
 						cn = connB
 					}
 					connMu.Unlock()
-					switch rng.IntN(16) {
+					switch rng.IntN(18) {
 					case 0:
 						_, _ = ag.A.GetLocalCandidates()
 					case 1:
@@ -188,6 +188,13 @@ func raceRound(t *testing.T, seed int64, round int) {
 						_ = ag.A.SetRemoteCredentials(map[bool]string{true: B.Ufrag, false: A.Ufrag}[ag == A], map[bool]string{true: B.Pwd, false: A.Pwd}[ag == A])
 					case 15:
 						_ = ag.A.UpdateOptions()
+					case 16:
+						_ = ag.A.GatherCandidates()
+					case 17:
+						_ = ag.A.GetLocalCandidatesStats()
+						if cand, err := ice.NewCandidateHost(&ice.CandidateHostConfig{Network: "udp", Address: "10.0.9.9", Port: 9000 + g, Component: 1}); err == nil {
+							_ = ag.A.AddRemoteCandidate(cand)
+						}
 					}
 					time.Sleep(time.Duration(1+rng.IntN(5)) * time.Millisecond)
 				}
